@@ -59,7 +59,9 @@ func (p phase) String() string {
 	return p.Table + "/" + string(p.Kind)
 }
 
-func isRootTable(t string) bool { return t == "owners" || t == "nodes" || t == "staffs" }
+func isRootTable(t string) bool {
+	return t == "owners" || t == "nodes" || t == "staffs" || t == "subs"
+}
 
 // belongs-to records are saved before their parents' statement
 func isBelongsTable(t string) bool { return t == "companies" }
@@ -129,6 +131,30 @@ var (
 // the create pipeline; children are upserted), either family is accepted, but
 // one record must use one family consistently.
 func families(c Case, table string) []family {
+	fs := familiesAll(c, table)
+	if c.Subset == "" {
+		return fs
+	}
+	// a model that implements a subset of the hooks: only those apply
+	var out []family
+	for _, f := range fs {
+		var g family
+		for _, h := range f.B {
+			if implemented(c.Subset, h) {
+				g.B = append(g.B, h)
+			}
+		}
+		for _, h := range f.A {
+			if implemented(c.Subset, h) {
+				g.A = append(g.A, h)
+			}
+		}
+		out = append(out, g)
+	}
+	return out
+}
+
+func familiesAll(c Case, table string) []family {
 	switch {
 	case !c.isWrite():
 		return []family{famFind}
@@ -222,7 +248,11 @@ func judge(o *Obs) (fs []finding) {
 				markers = append(markers, se)
 				continue
 			}
-			if table == c.rootTable() && verb == "INSERT" {
+			mainVerb := "INSERT"
+			if !c.isWrite() {
+				mainVerb = "SELECT"
+			}
+			if table == c.rootTable() && verb == mainVerb {
 				rootInserts++
 				if c.Graph != "" && rootInserts > 1 {
 					// the argument's own records are inserted first; later
@@ -245,8 +275,22 @@ func judge(o *Obs) (fs []finding) {
 		// child hook gorm does not attach them, so they cannot be read from
 		// the destination)
 		recs = nil
+		if c.Op == "find_batches" {
+			// the destination holds the last batch only: the loaded records are the matching rows
+			for id := uint(1); id <= uint(c.Len); id++ {
+				recs = append(recs, record{Ident: fmt.Sprintf("owners#%d", id), Table: "owners", ID: id, Name: fmt.Sprintf("o%d", id), Root: int(id - 1)})
+				if c.Kids == "both" {
+					recs = append(recs, record{Ident: fmt.Sprintf("pets#%d", id), Table: "pets", ID: id, Root: int(id - 1)})
+					recs = append(recs, record{Ident: fmt.Sprintf("toys#%d", 2*id-1), Table: "toys", ID: 2*id - 1, Root: int(id - 1)})
+					recs = append(recs, record{Ident: fmt.Sprintf("toys#%d", 2*id), Table: "toys", ID: 2 * id, Root: int(id - 1)})
+				}
+			}
+		}
 		for _, r := range o.After {
-			if r.Table == "owners" && r.ID != 0 {
+			if c.Op == "find_batches" {
+				break
+			}
+			if r.Table == c.rootTable() && r.ID != 0 {
 				recs = append(recs, r)
 				if c.Kids == "both" {
 					recs = append(recs, record{Ident: fmt.Sprintf("pets#%d", r.ID), Table: "pets", ID: r.ID, Root: r.Root})
@@ -254,12 +298,6 @@ func judge(o *Obs) (fs []finding) {
 					recs = append(recs, record{Ident: fmt.Sprintf("toys#%d", 2*r.ID), Table: "toys", ID: 2 * r.ID, Root: r.Root})
 				}
 			}
-		}
-	}
-	nRoots := 0
-	for _, r := range recs {
-		if r.Table == "owners" {
-			nRoots++
 		}
 	}
 
@@ -540,6 +578,33 @@ func judge(o *Obs) (fs []finding) {
 		add("hooks ran for a record the operation is not about", "%s: %s", id, hookNames(byIdent[id]))
 	}
 
+	// ---- FindInBatches: the batch function is called for every batch that
+	// was loaded without error, and for no other
+	if c.Op == "find_batches" {
+		nBatches := (c.Len + c.Batch - 1) / c.Batch
+		if firstFail != nil {
+			nBatches = firstFail.Batch // batches before the failing one
+		}
+		var want, got []string
+		for b := 0; b < nBatches; b++ {
+			var ids []uint
+			for id := b*c.Batch + 1; id <= (b+1)*c.Batch && id <= c.Len; id++ {
+				ids = append(ids, uint(id))
+			}
+			want = append(want, fmt.Sprintf("batch %d %v", b+1, ids))
+		}
+		for _, f := range o.FnCalls {
+			got = append(got, fmt.Sprintf("batch %d %v", f.Batch, f.IDs))
+		}
+		if !eq(want, got) {
+			kind := "batch function not called once per loaded batch"
+			if firstFail != nil {
+				kind = "batch function called for a batch whose hook failed (or a later one)"
+			}
+			add(kind, "calls %v, expected %v", got, want)
+		}
+	}
+
 	// ---- effects
 	if firstFail != nil {
 		switch {
@@ -553,7 +618,7 @@ func judge(o *Obs) (fs []finding) {
 		default:
 			// a query outside a transaction: nothing to roll back; the data
 			// tables must be untouched, the hooks' own writes stay
-			if !snapEqual(o.Pre, o.Post, "owners", "pets", "toys") {
+			if !snapEqual(o.Pre, o.Post, "owners", "pets", "toys", "subs") {
 				add("query changed the data tables", "%s", diffTables(o))
 			}
 		}
@@ -627,6 +692,7 @@ func judge(o *Obs) (fs []finding) {
 // mainEffect: the operation did what it is for (keeps the run non-vacuous).
 func mainEffect(o *Obs, recs []record, add func(kind, format string, a ...interface{})) {
 	c := o.Case
+	rt := c.rootTable()
 	after := map[string]record{}
 	for _, r := range o.After {
 		after[r.Ident] = r
@@ -652,7 +718,7 @@ func mainEffect(o *Obs, recs []record, add func(kind, format string, a ...interf
 			}
 		}
 		for _, r := range recs {
-			if r.Table != "owners" && c.Op == "save_existing" && c.Shape == "ptr_struct" {
+			if r.Table != rt && c.Op == "save_existing" && c.Shape == "ptr_struct" {
 				continue // Save(&existing) selects "*": associations are not saved
 			}
 			a := after[r.Ident]
@@ -667,16 +733,16 @@ func mainEffect(o *Obs, recs []record, add func(kind, format string, a ...interf
 		}
 	case c.isUpdate():
 		for _, r := range recs {
-			if r.Table != "owners" {
+			if r.Table != rt {
 				continue
 			}
-			if row := rowByID(o.Post, "owners", r.ID); row == nil || row["note"] != "u" {
+			if row := rowByID(o.Post, rt, r.ID); row == nil || row["note"] != "u" {
 				add("update did not reach the row of a model record", "record %s id=%d row=%v", r.Ident, r.ID, row)
 			}
 		}
 	case c.Op == "delete":
 		for _, r := range recs {
-			if row := rowByID(o.Post, "owners", r.ID); row != nil {
+			if row := rowByID(o.Post, rt, r.ID); row != nil {
 				add("delete left the row of a record", "record %s id=%d", r.Ident, r.ID)
 			}
 		}
@@ -687,7 +753,7 @@ func mainEffect(o *Obs, recs []record, add func(kind, format string, a ...interf
 		}
 		n := 0
 		for _, r := range recs {
-			if r.Table == "owners" {
+			if r.Table == rt {
 				n++
 				if r.Name != fmt.Sprintf("o%d", r.ID) {
 					add("loaded record does not match its row", "record %s id=%d name=%q", r.Ident, r.ID, r.Name)
@@ -699,21 +765,21 @@ func mainEffect(o *Obs, recs []record, add func(kind, format string, a ...interf
 		}
 		var wantKids, gotKids []string
 		for _, r := range recs {
-			if r.Table != "owners" {
+			if r.Table != rt {
 				wantKids = append(wantKids, r.Ident)
 			}
 		}
 		for _, r := range o.After {
-			if r.Table != "owners" {
+			if r.Table != rt {
 				gotKids = append(gotKids, fmt.Sprintf("%s#%d", r.Table, r.ID))
 			}
 		}
 		sort.Strings(wantKids)
 		sort.Strings(gotKids)
-		if !eq(wantKids, gotKids) {
+		if c.Op != "find_batches" && !eq(wantKids, gotKids) {
 			add("preloaded children differ from the rows of the loaded parents", "%v vs %v", gotKids, wantKids)
 		}
-		if !snapEqual(o.Pre, o.Post, "owners", "pets", "toys") {
+		if !snapEqual(o.Pre, o.Post, "owners", "pets", "toys", "subs") {
 			add("query changed the data tables", "%s", diffTables(o))
 		}
 	}
